@@ -26,7 +26,7 @@ IDS = {"sm": ["urn:sm/1+=", "grüße-ä", "https://ex.org/sm?a=b&c=>>>?"], "shel
        "cd": ["urn:cd:1", "urn:cd:2/ü"]}
 RULE = {"sm": ("/submodels", "submodel_id", "sm"), "shell": ("/shells", "aas_id", "aas"),
         "cd": ("/concept-descriptions", "concept_id", "cd")}
-TOPNAMES = {"p1": "P", "c1": "C", "f1": "F", "b1": "B", "l1": "L", "p9": "P"}
+TOPNAMES = {"p1": "P", "c1": "C", "f1": "F", "f5": "F", "b1": "B", "l1": "L", "p9": "P"}
 PATHS = ["p1", "c1", "c1.p2", "c1.c2", "c1.c2.p3", "f1", "b1", "l1", "p9", "zz", "c1.zz", "p1.x"]
 ACC = [(None, "json"), ("application/json", "json"), ("application/xml", "xml"), ("text/xml", "textxml")]
 FMT = ["json", "json", "xml", "textxml"]
@@ -143,11 +143,11 @@ def gen_request(rng):
             return rq(one_q, "PUT", body=("val", fmt, {"k": "qual", "type": rng.choice(CS.QTYPES), "val": rng.randrange(1, 9)}), cls="put-qual", **kw)
         return rq(one_q, "DELETE", cls="delete-qual", **kw)
     if x < 0.95:      # attachments
-        p = rng.choice(["f1", "b1", "p1", "c1"])
+        p = rng.choice(["f1", "f1", "f5", "f5", "b1", "p1", "c1"])
         base = smone + "/submodel-elements/<id_short_path:id_shorts>/attachment"
         y = rng.random()
         if y < 0.4:
-            return rq(base, "PUT", body=("upload", rng.choice(["/aasx/up.txt", "/aasx/x.txt", "rel.txt"]), (rng.randrange(2), rng.randrange(4))),
+            return rq(base, "PUT", body=("upload", rng.choice(["/aasx/up.txt", "/aasx/up.txt", "/aasx/x.txt", "rel.txt"]), (rng.randrange(2), rng.randrange(4))),
                       sm=smseg, path=p, cls="put-attachment")
         if y < 0.8:
             return rq(base, "GET", sm=smseg, path=p, cls="get-attachment")
@@ -226,6 +226,7 @@ def oracle_history(srv, backed, reqs, routes):
     srv.reset([], [], backed)
     ref = {}          # identifier -> (kind, abstract value or None when the content is not tracked)
     fails = []
+    uploads = {}      # attachment URL -> bytes uploaded there
     has_get = {r for (r, ms, e) in routes if "GET" in ms}
     for k, req in enumerate(reqs):
         url, resp, exc = srv.fire(req)
@@ -298,6 +299,25 @@ def oracle_history(srv, backed, reqs, routes):
             sent = G.abs_json(json.loads(resp.data))
             if s2 != 200 or norm(got) != norm(sent):
                 fails.append((k, "location", f"created resource is not retrievable at its Location (GET -> {s2})", ep))
+        if ep == "put_submodel_submodel_element_attachment" and st == 204:
+            r2 = srv.client.get(url)
+            want = G.CONTENTS[b[2][1]]
+            if r2.status_code != 200 or r2.data != want:
+                fails.append((k, "attachment", f"GET of the attachment after its upload returned 204 -> {r2.status_code}, "
+                                               f"{'other bytes than uploaded' if r2.status_code == 200 else 'no content'}", ep))
+            uploads[url] = want
+        if ep == "delete_submodel_submodel_element_attachment" and st == 204:
+            uploads.pop(url, None)
+            for u2, want in list(uploads.items()):
+                r2 = srv.client.get(u2)
+                if r2.status_code == 404 and u2.split("/submodel-elements/")[0] == url.split("/submodel-elements/")[0]:
+                    # the element may have been deleted or replaced meanwhile: only an existing File element counts
+                    r3 = srv.client.get(u2[:-len("/attachment")])
+                    if r3.status_code == 200 and b'"value"' in r3.data:
+                        fails.append((k, "attachment", "deleting one attachment made another element's attachment unavailable (404)", ep))
+                        uploads.pop(u2, None)
+        if req["method"] in ("PUT", "DELETE", "POST") and st < 300 and ep not in ("put_submodel_submodel_element_attachment", "delete_submodel_submodel_element_attachment"):
+            uploads.clear()     # elements may have been replaced or removed: forget what was uploaded
         if req["method"] == "DELETE" and st == 204 and req["rule"] in has_get:
             s2, _ = get_json(srv, url)
             if s2 != 404:
@@ -334,6 +354,37 @@ def oracle_history(srv, backed, reqs, routes):
                     fails.append((k, "paging", "pages following the cursor differ from the listing", ep))
     srv.cleanup()
     return fails
+
+
+def paging_oracle(srv, chk, objs):
+    """following the cursor visits every element of a listing exactly once - for limits below, equal to and
+    above the listing size and above 100, on a listing of 130 elements"""
+    for rule, want in (("/concept-descriptions", [o["id"] for o in objs if o["k"] == "cd"]),
+                       (f"/submodels/{b64('urn:big')}/submodel-elements", [e["ids"] for o in objs if o["k"] == "sm" for e in o["elems"]])):
+        key = "id" if rule == "/concept-descriptions" else "ids"
+        for backed in (False, True):
+            if backed and key == "id":
+                continue        # directory order: pages of a local-file store are compared as a whole only
+            srv.reset(objs, [], backed)
+            for lim in (1, 7, 50, 99, 100, 101, 120, len(want) - 1, len(want), len(want) + 1, 200, 1000):
+                seen, cur, steps = [], 0, 0
+                while steps < 200:
+                    steps += 1
+                    st, pg = get_json(srv, f"{G.BASE}{rule}?limit={lim}&cursor={cur}")
+                    if st != 200 or not pg["items"]:
+                        break
+                    seen += [x.get(key) for x in pg["items"]]
+                    cur = int(pg["cursor"])
+                if seen != want:
+                    missing = len(set(want) - set(seen))
+                    chk.fail(f"C10:paging:{'submodel-elements' if key == 'ids' else 'concept-descriptions'}",
+                             f"GET {rule}?limit={lim} following the cursor saw {len(seen)} of {len(want)} elements ({missing} never, "
+                             f"{len(seen) - len(set(seen))} twice)",
+                             {"how": "store with 130 concept descriptions / a submodel with 130 elements (httpcases.big_listing); "
+                                     "GET the listing with this limit and cursor=0, then with the returned cursor, until a page is empty",
+                              "limit": lim, "rule": rule, "backed": backed})
+                    break
+    srv.cleanup()
 
 
 def directed(srv, chk):
@@ -415,6 +466,9 @@ def run(chk):
         for r in reqs:
             chk.count("class=" + r["cls"])
     directed(srv, chk)
+    big_objs, big_reqs = CS.big_listing()
+    paging_oracle(srv, chk, big_objs)
+    plans.append((big_objs, [], False, big_reqs, False))
     n = c11.run_cases(chk, srv, ex, plans, "C10", prop="C10")
     chk.cov["requests_compared_with_model"] = n
     chk.cov["histories"] = {"in_memory": sum(1 for b, _ in hist if not b), "local_file": sum(1 for b, _ in hist if b), "length": hl}
